@@ -255,6 +255,25 @@ def publish_guard(ctx):
                                 ok = True
                             else:
                                 why = 'the tested flag is not read at the front of the chain'
+            if not ok and body.kind == 'Closure':
+                # `chain.front().filter(|(flag, _)| *flag).map(|(_, sk)| .. cpk ..)`: the closure runs iff the predicate held
+                for (pb, cc, idx) in lib.closure_consumers(F, body):
+                    if not (cc.is_(r'^std::option::Option::<T>::(map|and_then)$') and cc.args and is_place(cc.args[0])):
+                        continue
+                    _l, d = lib.resolve_copy(pb, op_local(cc.args[0]))
+                    if d is None or d.kind != 'call' or not d.call.is_(r'^std::option::Option::<T>::filter$'):
+                        continue
+                    fc = d.call
+                    heads = [x for x in lib.deep_calls(F, pb, [op_local(fc.args[0])]) if x.is_(*flags.HEAD)]
+                    iters = [x for x in lib.deep_calls(F, pb, [op_local(fc.args[0])]) if flags.chain_iteration_call(x)]
+                    for (_i, pcb, _rv) in lib.closure_args(F, fc):
+                        srcs = copy_chain_sources(pcb, {'cp': {'l': 0, 'p': []}}, through_calls=tuple(IDENTITY_CALLS))
+                        is_flag = bool(srcs) and all(s[0] == 'param' and s[1] == 2 and
+                                                     [x for x in s[2] if x != '*' and not str(x).startswith('@')][-1:] == ['0'] for s in srcs)
+                        if is_flag and heads and not iters:
+                            ok = True
+                        elif is_flag:
+                            why = 'the tested flag is not read at the front of the chain'
             ctx.check(ok, body.root or body.key, 'cpk<=front-flag',
                       'a right public key is derived (cpk, line %d) but %s: deactivated rights would be published'
                       % (c.ln, why), 'dominated by the true edge of front().0', c.where())
